@@ -5,6 +5,7 @@ package main
 
 import (
 	"fmt"
+	"os"
 	"sort"
 	"strconv"
 	"strings"
@@ -966,7 +967,7 @@ func (g *gen) members(big bool) string {
 func genCase(h *rt.H) []string {
 	g := &gen{h: h, bad: h.Chance(0.25)}
 	ops := []string{"new"}
-	big := h.Tier == "thorough" && h.Chance(0.03) || h.Tier != "thorough" && h.Chance(0.004)
+	big := h.Tier == "thorough" && h.Chance(0.01) || h.Tier != "thorough" && h.Chance(0.004)
 	for i := 0; i < 1+h.Intn(3); i++ {
 		id := fmt.Sprintf("s%d", i)
 		g.sets = append(g.sets, id)
@@ -987,7 +988,7 @@ func genCase(h *rt.H) []string {
 		ops = append(ops, fmt.Sprintf("ipport %s %s", id, strings.Join(ms, "+")))
 	}
 	var pols []string
-	for i := 0; i < 1+h.Intn(3); i++ {
+	for i := 0; i < 1+h.Intn(4); i++ {
 		id := fmt.Sprintf("policy-p%d", i)
 		pols = append(pols, id)
 		ops = append(ops, fmt.Sprintf("pol %s %s %s", id, g.rules(true), g.rules(false)))
@@ -1047,17 +1048,16 @@ func genCase(h *rt.H) []string {
 		// multi-tier layouts: split the policies over 2..3 tiers
 		var ts []string
 		nt := 2 + h.Intn(2)
+		// a policy belongs to exactly one tier; tiers without policies are skipped (as Felix does)
+		assign := make([][]string, nt)
+		for _, pid := range pols {
+			k := h.Intn(nt)
+			assign[k] = append(assign[k], pid)
+		}
 		for i := 0; i < nt; i++ {
-			var tids []string
-			for _, pid := range pols {
-				if h.Intn(nt) == i || h.Chance(0.2) {
-					tids = append(tids, pid)
-				}
+			if len(assign[i]) > 0 {
+				ts = append(ts, rt.Pick(h, []string{"0", "1", "1"})+":"+strings.Join(assign[i], ","))
 			}
-			if len(tids) == 0 {
-				tids = []string{rt.Pick(h, pols)}
-			}
-			ts = append(ts, rt.Pick(h, []string{"0", "1", "1"})+":"+strings.Join(tids, ","))
 		}
 		tspec := strings.Join(ts, "/")
 		if !big {
@@ -1079,7 +1079,7 @@ func genCase(h *rt.H) []string {
 		queries()
 	}
 	// direct calls of the rule converter with a small chunk size (splits addresses and ports)
-	for i := 0; i < h.Intn(3); i++ {
+	for i := 0; i < h.Intn(3) && !big; i++ {
 		inb := h.Bool()
 		d := "out"
 		if inb {
@@ -1124,6 +1124,14 @@ func main() {
 		return
 	}
 	for i := 0; i < h.N; i++ {
-		run(genCase(h), "gen")
+		ops := genCase(h)
+		if os.Getenv("C30_GENONLY") != "" {
+			// debugging aid: print the generated ops of the last case instead of executing anything
+			if i == h.N-1 {
+				fmt.Println(strings.Join(ops, "\n"))
+			}
+			continue
+		}
+		run(ops, "gen")
 	}
 }
